@@ -35,8 +35,8 @@ class Comment(models.Model):
     post = models.ForeignKey(Post, on_delete=models.CASCADE, related_name="comments")
     writer = models.ForeignKey(Author, null=True, on_delete=models.CASCADE,
                                related_name="comments")
-    reviewer = models.ForeignKey(Author, null=True, on_delete=models.CASCADE,
-                                 related_name="reviewed")
+    co_writer = models.ForeignKey(Author, null=True, on_delete=models.CASCADE,
+                                 related_name="co_written")
 
     class Meta:
         app_label = "simhost"
